@@ -142,7 +142,7 @@ func runWorkers(bin, prop, tier string, seed uint64, nw int, budgetMs int, extra
 			}
 			data, rerr := os.ReadFile(outPath)
 			o := &workerOut{Worker: w}
-			if rerr != nil || json.Unmarshal(data, o) != nil {
+			if rerr != nil || json.Unmarshal(data, o) != nil || (err != nil && o.Infra == "") {
 				tail := string(outb)
 				if len(tail) > 3000 {
 					tail = tail[len(tail)-3000:]
